@@ -256,7 +256,7 @@ def h_twice(n, form1, form2, flags):
 
 def configs(tier, seed):
     cfgs = []
-    nmax = 4 if tier == 'quick' else 6
+    nmax = 4 if tier == 'quick' else 7
     flagsets = [(1, 4, 1), (1, 2, 0)] if tier == 'quick' else [(1, 4, 1), (1, 2, 0), (4, 4, 9, 3), (1, 1, 4, 4, 1)]
     for n in range(0, nmax + 1):
         for form in FORMS:
